@@ -616,6 +616,10 @@ func runC12LiveSwap(c *fw.Ctx, id string, r *rand.Rand) {
 		send(buildV6(58, 0, -1))                                                           // ICMPv6
 		send(buildV6(17, 0, -1))                                                           // UDP over IPv6
 		send(buildV4(0x0800, 6, 7, 0, cfg.src, cfg.dst, cfg.sport, cfg.dport, 0x12, -1))   // the tuple's SYN-ACK behind IP options
+		// short frames as loopback / veth / virtual NICs deliver them (no padding to the 60-byte Ethernet minimum): the
+		// tuple's RST|ACK (54 bytes) and an echo reply to a one-byte echo request (43 bytes)
+		send(buildV4(0x0800, 6, 5, 0, cfg.src, cfg.dst, cfg.sport, cfg.dport, 0x14, 54))
+		send(buildV4(0x0800, 1, 5, 0, foreign, cfg.dst, 0, 0, 0, 43))
 		// long frames: an ICMPv6 error quoting a whole probe (14+40+8+40+8 = 110 bytes and more), an ICMPv4 error with a
 		// long quote: what the filter accepts is delivered WHOLE
 		long6 := append(buildV6(58, 0, -1), bytes.Repeat([]byte{0x5c}, 90)...)
